@@ -97,6 +97,50 @@ theorem clique_sealing_witness :
       optedIn Env.default .http = false :=
   ⟨⟨"aqua", "getWork", "GetWork", "aqua.PublicMinerAPI", false, true, false, false, true, false⟩, by decide, by decide, by decide, by decide⟩
 
+/-! ### how the variables are read (sense.EnvBool): only an opting-in value opts in -/
+
+/-- tie: the model of sense.EnvBool agrees with the real function on the regenerated value lattice (unset, empty, every
+    spelling in several cases, unparsable values) — dumped from the compiled package on every run. -/
+theorem envbool_table_agrees : ∀ r ∈ envBoolTable, envBool r.1 = r.2 := by decide +kernel
+
+/-- hence the real function gives the documented reading on every row of the lattice. -/
+theorem envbool_table_is_documented : ∀ r ∈ envBoolTable, envOn r.1 = r.2 := by
+  intro r hr
+  rw [← envBool_eq_envOn]; exact envbool_table_agrees r hr
+
+example : (some "", false) ∈ envBoolTable ∧ (some " 1", true) ∈ envBoolTable ∧ (none, false) ∈ envBoolTable := by decide
+
+/-- **A variable that is present but empty does not opt in** (`export UNSAFE_ALLOW_SIGN_IPC=`, an empty `.env` line, an
+    undefined `${VAR}` substitution): neither for the documented reading nor for the model of EnvBool, on any transport. -/
+theorem empty_value_is_off :
+    envOn (some "") = false ∧ envBool (some "") = false ∧
+    ∀ (r : RawEnv) (t : Transport), r.get (designated t) = some "" → optedInRaw r t = false ∧ optedIn r.read t = false := by
+  refine ⟨by decide +kernel, by decide +kernel, ?_⟩
+  intro r t h
+  have h1 : optedInRaw r t = false := by simp only [optedInRaw, h]; decide +kernel
+  exact ⟨h1, by rw [optedIn_read, h1]⟩
+
+example : ∃ r : RawEnv, r.get (designated .ipc) = some "" := ⟨{ RawEnv.unset with ipc := some "" }, rfl⟩
+
+/-- falsy spellings and an unset variable do not opt in either; any other non-empty value does (documented reading). -/
+theorem only_opting_values_opt_in (v : Option String) :
+    envOn v = true ↔ ∃ x, v = some x ∧ x.toLower ≠ "" ∧ x.toLower ∉ falsyWords := by
+  cases v with
+  | none => simp [envOn]
+  | some x => simp [envOn]
+
+/-- **No signing unless opted in, on the raw process environment** (pow nodes): whatever the five variables contain, a
+    transport exposes a method that can reach a signing entry point only if its designated variable carries an opting-in value. -/
+theorem no_signing_unless_opted_in_raw :
+    ∀ m ∈ methods, ∀ (cfg : Cfg) (t : Transport) (r : RawEnv),
+      exposed params .pow cfg r.read t m = true → signs .pow m = true → optedInRaw r t = true := by
+  intro m hm cfg t r hx hs
+  rw [← optedIn_read]
+  exact no_signing_unless_opted_in m hm cfg t r.read hx hs
+
+example : ∃ m ∈ methods, exposed params .pow Cfg.default ({ RawEnv.unset with http := some "yes" }).read .http m = true ∧ signs .pow m = true :=
+  ⟨⟨"aqua", "sign", "Sign", "aquaapi.PublicTransactionPoolAPI", false, true, false, false, true, true⟩, by decide, by decide +kernel, by decide⟩
+
 /-! ### C18, second sentence: opting in is per transport -/
 
 /-- **Opt-in is per transport**: setting (or clearing) the variable designated for transport t' changes nothing about what any
